@@ -184,10 +184,17 @@ Proof. intros {vars} Hpath. unfold {T}_path in Hpath; rops. path_facts Hpath. un
     # half-turn branch (s < 1e-5, c <= 0): axis from the diagonal and the three sign fix-ups, one scenario per pattern the
     # fix-ups distinguish.  The scenario matrices are symmetric (s = 0 exactly); the inexact ones have the diagonal shrunk
     # by 1% so that the clip of c does not sit on a rounding tie (the trace does not need a rotation, only the path).
-    half_lemma = """Ltac decide_path := repeat (first
-  [ match goal with H : ?a < ?b |- context [Rltb ?a ?b] => rewrite (proj2 (Rltb_true a b) H) end
-  | match goal with H : ?b <= ?a |- context [Rltb ?a ?b] => rewrite (proj2 (Rltb_false a b) H) end
-  | progress cbn [andb negb Bool.eqb] ]).
+    half_lemma = """(* comparisons are decided semantically (lra over the path facts), after |.| of terms of known sign has been normalised:
+   whether the code takes np.abs before or after negating a component, or orders a conjunction differently, does not matter *)
+Ltac norm_abs := rewrite ?Rabs_Ropp in *; repeat match goal with
+  | |- context [Rabs (sqrt ?x)] => rewrite (Rabs_pos_eq (sqrt x) (sqrt_pos x)) in *
+  | H : context [Rabs (sqrt ?x)] |- _ => rewrite (Rabs_pos_eq (sqrt x) (sqrt_pos x)) in *
+  end.
+Ltac decide_path := repeat (first
+  [ match goal with |- context [Rltb ?a ?b] =>
+      first [ rewrite (proj2 (Rltb_true a b)) by lra | rewrite (proj2 (Rltb_false a b)) by lra ] end
+  | progress cbn [andb negb Bool.eqb]
+  | progress norm_abs ]).
 
 Lemma {T}_ok : forall {vars} : R, {T}_path ROps {vars} ->
   forall v, rodrigues_inv ROps (fun m => m) %s = Some v ->
@@ -207,7 +214,7 @@ Proof. intros {vars} Hpath v. unfold {T}_path in Hpath; rops. path_facts Hpath. 
   rewrite !diag_root_nonneg by assumption.
   change (nltb ROps) with Rltb. change (nabs ROps) with Rabs. change (nneg ROps) with Ropp. change (nmul ROps) with Rmult.
   change (nadd ROps) with Rplus. change (n0 ROps) with 0.
-  decide_path.
+  norm_abs. decide_path.
   match goal with |- context [Reqb ?a ?b] => destruct (Reqb_spec a b) as [E|E] end; [discriminate|].
   intros Ev; injection Ev as <-.
   unfold {T}.
